@@ -732,4 +732,251 @@ theorem outerNext_spec (c : Cfg) (r : Reader) (b : Bucket) (B : KV) (s : State) 
           simp only [pending, List.tail_cons]
           rw [a2]
 
+def filterOut (c : Cfg) (l : KV) : KV := l.filter (fun e => !c.outer e.2)
+
+theorem scanNext_spec (c : Cfg) (r : Reader) (b : Bucket) (B : KV) :
+    ∀ (fuel : Nat) (s : State) (sc : Scan), ScanInv c r b B s sc → (pending c sc).length < fuel →
+      (∃ dropped, pending c sc = dropped ++ (optL (scanNext c r b fuel s sc).2.2 ++ pending c (scanNext c r b fuel s sc).2.1) ∧
+        ∀ d ∈ dropped, c.outer d.2 = true) ∧
+      (∀ e, (scanNext c r b fuel s sc).2.2 = some e → c.outer e.2 = false) ∧
+      ((scanNext c r b fuel s sc).2.2 = none → pending c (scanNext c r b fuel s sc).2.1 = []) ∧
+      ScanInv c r b B (scanNext c r b fuel s sc).1 (scanNext c r b fuel s sc).2.1 ∧
+      Reach r s (scanNext c r b fuel s sc).1 := by
+  intro fuel
+  induction fuel with
+  | zero => intro s sc _ h; exact absurd h (Nat.not_lt_zero _)
+  | succ fuel ih =>
+    intro s sc hinv hlen
+    obtain ⟨q1, q2, q3, q4⟩ := outerNext_spec c r b B s sc hinv
+    unfold scanNext
+    generalize hq : outerNext c r b s sc = q at q1 q2 q3 q4
+    obtain ⟨s', sc', y⟩ := q
+    simp only at q1 q2 q3 q4
+    cases y with
+    | none =>
+      have hp : pending c sc = [] := head?_eq_none_iff'.mp q1.symm
+      have hp' : pending c sc' = [] := by rw [q2, hp]; rfl
+      simp only
+      exact ⟨⟨[], by simp [optL, hp, hp'], by simp⟩, by simp, fun _ => hp', q3, q4⟩
+    | some e =>
+      have hp : pending c sc = e :: pending c sc' := by
+        rw [q2]
+        cases hpe : pending c sc with
+        | nil => rw [hpe] at q1; simp at q1
+        | cons a l => rw [hpe] at q1; simp at q1; simp [q1]
+      simp only
+      by_cases ho : c.outer e.2 = true
+      · simp only [ho, if_true]
+        have hlen' : (pending c sc').length < fuel := by
+          rw [hp] at hlen; simp only [List.length_cons] at hlen; omega
+        obtain ⟨⟨dropped, hd1, hd2⟩, i2, i3, i4, i5⟩ := ih s' sc' q3 hlen'
+        refine ⟨⟨e :: dropped, ?_, ?_⟩, i2, i3, i4, q4.trans i5⟩
+        · rw [hp, hd1]; simp
+        · intro d hd
+          rcases List.mem_cons.mp hd with hd | hd
+          · subst hd; exact ho
+          · exact hd2 d hd
+      · simp only [ho, if_false, Bool.false_eq_true]
+        refine ⟨⟨[], by simp [optL, hp], by simp⟩, ?_, by simp, q3, q4⟩
+        intro e' he'
+        simp at he'; subst he'
+        simpa using ho
+
+theorem pending_length_lt_size (c : Cfg) (sc : Scan) : (pending c sc).length < sc.size + 1 := by
+  have h1 := length_merge_le sc.o (optL sc.ip ++ innerL c sc)
+  have h2 := length_merge_le sc.fi (optL sc.bp ++ stripL c sc.br)
+  have h3 : (stripL c sc.br).length ≤ sc.br.length := List.length_filter_le _ _
+  have h4 : (optL sc.ip).length ≤ 1 := by cases sc.ip <;> simp [optL]
+  have h5 : (optL sc.bp).length ≤ 1 := by cases sc.bp <;> simp [optL]
+  simp only [pending, innerL, Scan.size, List.length_append] at *
+  omega
+
+theorem key_of_bp_pending (c : Cfg) (sc : Scan) (y : Elem) (h : sc.bp = some y) :
+    y.1 ∈ keys (pending c sc) := by
+  unfold pending
+  rw [keys_merge]; right
+  simp only [keys, List.map_append, List.mem_append]; right
+  show y.1 ∈ keys (innerL c sc)
+  unfold innerL
+  rw [keys_merge]; right
+  simp [keys, h, optL]
+
+theorem sorted_append_cons_lt {pre l : KV} {y x : Elem} (hs : Sorted (pre ++ (y :: l))) (hx : x ∈ l) :
+    y.1 < x.1 := by
+  have h1 := (List.pairwise_append.mp hs).2.1
+  exact (List.pairwise_cons.mp h1).1 x hx
+
+/-- every backend entry up to a key below everything still pending has been pulled and looked up -/
+theorem pulled_upto (c : Cfg) (r : Reader) (b : Bucket) (B : KV) (s : State) (sc : Scan) (kmax : Key)
+    (hinv : ScanInv c r b B s sc) (hB : Sorted B) (hk : ∀ k ∈ keys (pending c sc), kmax < k) :
+    ∀ x ∈ B, x.1 ≤ kmax → Rec r s b x.1 := by
+  intro x hx hle
+  obtain ⟨pre, hBeq, hrec⟩ := hinv.back.split
+  rw [hBeq] at hx
+  rcases List.mem_append.mp hx with h | h
+  · exact hrec x (List.mem_append_left _ h)
+  · rcases List.mem_append.mp h with h | h
+    · exact hrec x (List.mem_append_right _ h)
+    · cases hbp : sc.bp with
+      | none => rw [hinv.back.exhausted hbp] at h; simp at h
+      | some y =>
+        have h1 := hk _ (key_of_bp_pending c sc y hbp)
+        rw [hBeq, hbp] at hB
+        have h2 : y.1 < x.1 := sorted_append_cons_lt (by simpa [optL] using hB) h
+        omega
+
+theorem exhausted_all_rec (c : Cfg) (r : Reader) (b : Bucket) (B : KV) (s : State) (sc : Scan)
+    (hinv : ScanInv c r b B s sc) (hp : pending c sc = []) : ∀ x ∈ B, Rec r s b x.1 := by
+  intro x hx
+  obtain ⟨pre, hBeq, hrec⟩ := hinv.back.split
+  cases hbp : sc.bp with
+  | some y =>
+    have := key_of_bp_pending c sc y hbp
+    rw [hp] at this; simp [keys] at this
+  | none =>
+    rw [hBeq, hbp, hinv.back.exhausted hbp] at hx
+    simp only [optL, List.append_nil] at hx
+    exact hrec x (List.mem_append_left _ hx)
+
+theorem sorted_of_append_right {l1 l2 : KV} (h : Sorted (l1 ++ l2)) : Sorted l2 :=
+  (List.pairwise_append.mp h).2.1
+
+theorem scanTake_spec (c : Cfg) (r : Reader) (b : Bucket) (B : KV) (hB : Sorted B) :
+    ∀ (n : Nat) (s : State) (sc : Scan), ScanInv c r b B s sc → Sorted (pending c sc) →
+      (scanTake c r b n s sc).2 = (filterOut c (pending c sc)).take n ∧
+      Reach r s (scanTake c r b n s sc).1 ∧
+      ((scanTake c r b n s sc).2.length < n → ∀ x ∈ B, Rec r (scanTake c r b n s sc).1 b x.1) ∧
+      (∀ e ∈ (scanTake c r b n s sc).2, ∀ x ∈ B, x.1 ≤ e.1 → Rec r (scanTake c r b n s sc).1 b x.1) := by
+  intro n
+  induction n with
+  | zero =>
+    intro s sc _ _
+    simp [scanTake]
+    exact Reach.refl r s
+  | succ n ih =>
+    intro s sc hinv hsorted
+    obtain ⟨⟨dropped, hd1, hd2⟩, j2, j3, j4, j5⟩ :=
+      scanNext_spec c r b B (sc.size + 1) s sc hinv (pending_length_lt_size c sc)
+    unfold scanTake
+    generalize hq : scanNext c r b (sc.size + 1) s sc = q at hd1 j2 j3 j4 j5
+    obtain ⟨s', sc', y⟩ := q
+    simp only at hd1 j2 j3 j4 j5
+    have hfd : filterOut c dropped = [] := by
+      simp only [filterOut, List.filter_eq_nil_iff]
+      intro a ha; simp [hd2 a ha]
+    cases y with
+    | none =>
+      have hp' := j3 rfl
+      simp only
+      refine ⟨?_, j5, fun _ => exhausted_all_rec c r b B s' sc' j4 hp', by simp⟩
+      rw [hd1, hp']
+      simp only [optL, List.append_nil, filterOut] at hfd ⊢
+      rw [hfd]; rfl
+    | some e =>
+      have he := j2 e rfl
+      have hs' : Sorted (e :: pending c sc') := by
+        rw [hd1] at hsorted
+        simpa [optL] using sorted_of_append_right hsorted
+      obtain ⟨hlt, hs''⟩ := sorted_cons_iff.mp hs'
+      obtain ⟨k1, k2, k3, k4⟩ := ih s' sc' j4 hs''
+      simp only
+      generalize hq2 : scanTake c r b n s' sc' = q2 at k1 k2 k3 k4
+      obtain ⟨s'', l⟩ := q2
+      simp only at k1 k2 k3 k4 ⊢
+      refine ⟨?_, j5.trans k2, ?_, ?_⟩
+      · rw [hd1]
+        simp only [filterOut, List.filter_append, optL, List.cons_append, List.nil_append] at hfd ⊢
+        rw [hfd]
+        simp only [List.nil_append, List.filter_cons, he, Bool.not_false, if_true, List.take_succ_cons]
+        rw [k1]; rfl
+      · intro hlen
+        simp only [List.length_cons] at hlen
+        exact k3 (by omega)
+      · intro e' he' x hx hle
+        rcases List.mem_cons.mp he' with h | h
+        · subst h
+          exact (pulled_upto c r b B s' sc' _ j4 hB hlt x hx hle).mono k2
+        · exact k4 e' h x hx hle
+
+theorem sorted_filter {l : KV} (p : Elem → Bool) (h : Sorted l) : Sorted (l.filter p) :=
+  List.Pairwise.filter p h
+
+theorem openScan_spec (c : Cfg) (r : Reader) (s : State) (b : Bucket) (lo : Nat) (hi : Option Nat) :
+    ScanInv c r b (rangeOf (r.sel b) lo hi) (openScan c r s b lo hi).1 (openScan c r s b lo hi).2 ∧
+    pending c (openScan c r s b lo hi).2 =
+      merge (rangeOf (s.outputs b) lo hi)
+        (merge (stripL c (rangeOf (s.inputs b) lo hi)) (stripL c (rangeOf (r.sel b) lo hi))) ∧
+    Reach r s (openScan c r s b lo hi).1 := by
+  obtain ⟨h1, h2, h3⟩ := backNext_spec c r b (rangeOf (r.sel b) lo hi) (rangeOf (r.sel b) lo hi) s []
+    (by simp) (by simp)
+  unfold openScan
+  generalize backNext c r b s (rangeOf (r.sel b) lo hi) = q at h1 h2 h3
+  obtain ⟨s1, bp, br⟩ := q
+  simp only at h1 h2 h3 ⊢
+  obtain ⟨g1, g2, g3, g4, g5, g6⟩ := innerNext_spec c r b (rangeOf (r.sel b) lo hi) s1
+    ⟨rangeOf (s.outputs b) lo hi, (rangeOf (s.inputs b) lo hi).filter (fun e => !c.inner e.2), bp, br, none⟩ h2
+  generalize innerNext c r b s1
+    ⟨rangeOf (s.outputs b) lo hi, (rangeOf (s.inputs b) lo hi).filter (fun e => !c.inner e.2), bp, br, none⟩ = q
+    at g1 g2 g3 g4 g5 g6
+  obtain ⟨s2, sc, ip⟩ := q
+  simp only at g1 g2 g3 g4 g5 g6 ⊢
+  have hL : innerL c { sc with ip := ip } = innerL c sc := rfl
+  refine ⟨⟨g5, ?_⟩, ?_, h3.trans g6⟩
+  · intro hn
+    simp only at hn
+    have hnil := head?_eq_none_iff'.mp (by rw [← g1]; exact hn)
+    rw [hL, g2, hnil]; rfl
+  · simp only [pending]
+    rw [hL, g2, g1, optL_head_tail, g3]
+    simp only [innerL]
+    rw [h1]; rfl
+
+/-- the backing reader is consistent: `Select` iterates in key order entries that `Get` returns too;
+what `Get` finds beyond that carries a delete mark or an empty version (deleted / never-written keys) -/
+structure Reader.WF (r : Reader) : Prop where
+  sorted : ∀ b, Sorted (r.sel b)
+  selGet : ∀ b k d, (k, d) ∈ r.sel b → r.get b k = some d
+  getSel : ∀ b k d, r.get b k = some d → (k, d) ∈ r.sel b ∨ d.isDel = true ∨ d.isEmptyVer = true
+
+theorem memReader_wf (m : Store) (hs : ∀ b, Sorted (m b)) : (memReader m).WF :=
+  ⟨hs, fun b _ _ h => mem_find_of_sorted (hs b) h, fun _ _ _ h => Or.inl (find_some_mem h)⟩
+
+/-- the merged list of which `Select` yields a prefix -/
+def selList (c : Cfg) (r : Reader) (s : State) (b : Bucket) (lo : Nat) (hi : Option Nat) : KV :=
+  filterOut c (merge (rangeOf (s.outputs b) lo hi)
+    (merge (stripL c (rangeOf (s.inputs b) lo hi)) (stripL c (rangeOf (r.sel b) lo hi))))
+
+theorem select_bad (c : Cfg) (r : Reader) (s : State) (b : Bucket) (lo : Nat) (hi : Option Nat) (n : Nat)
+    (h : badRange lo hi = true) : select c r s b lo hi n = (s, none) := by
+  unfold select
+  simp [h]
+
+theorem select_spec (c : Cfg) (r : Reader) (s : State) (b : Bucket) (lo : Nat) (hi : Option Nat) (n : Nat)
+    (hr : r.WF) (hi' : Inv r s) (h : badRange lo hi = false) :
+    (select c r s b lo hi n).2 =
+      some (((selList c r s b lo hi).take n).map (fun e => (e.1, e.2.val))) ∧
+    Reach r s (select c r s b lo hi n).1 ∧
+    (((selList c r s b lo hi).take n).length < n →
+      ∀ x ∈ rangeOf (r.sel b) lo hi, Rec r (select c r s b lo hi n).1 b x.1) ∧
+    (∀ e ∈ (selList c r s b lo hi).take n, ∀ x ∈ rangeOf (r.sel b) lo hi, x.1 ≤ e.1 →
+      Rec r (select c r s b lo hi n).1 b x.1) := by
+  obtain ⟨o1, o2, o3⟩ := openScan_spec c r s b lo hi
+  have hB : Sorted (rangeOf (r.sel b) lo hi) := sorted_filter _ (hr.sorted b)
+  have hsp : Sorted (pending c (openScan c r s b lo hi).2) := by
+    rw [o2]
+    exact sorted_merge _ _ (sorted_filter _ (hi'.sortedOut b))
+      (sorted_merge _ _ (sorted_filter _ (sorted_filter _ (hi'.sortedIn b))) (sorted_filter _ hB))
+  obtain ⟨t1, t2, t3, t4⟩ := scanTake_spec c r b _ hB n _ _ o1 hsp
+  unfold select
+  simp only [h, Bool.false_eq_true, if_false]
+  generalize openScan c r s b lo hi = q at o1 o2 o3 hsp t1 t2 t3 t4
+  obtain ⟨s1, sc⟩ := q
+  simp only at o1 o2 o3 hsp t1 t2 t3 t4 ⊢
+  generalize scanTake c r b n s1 sc = q2 at t1 t2 t3 t4
+  obtain ⟨s2, l⟩ := q2
+  simp only at t1 t2 t3 t4 ⊢
+  have hl : l = (selList c r s b lo hi).take n := by rw [t1, o2]; rfl
+  subst hl
+  exact ⟨rfl, o3.trans t2, t3, t4⟩
+
 end XV.Sandbox
